@@ -794,7 +794,7 @@ impl<'a> Gen<'a> {
         }
         self.shorthands.clear();
         let mut shorthands = Vec::new();
-        if self.cfg.allow_shorthands && self.rng.chance(1, 4) {
+        if self.cfg.allow_shorthands && self.rng.chance(1, 3) {
             let name = "sh".to_string();
             let v = "shv";
             let mut attrs = vec![json!({"name": "sh1", "value": {"k": "var", "name": v}})];
@@ -806,6 +806,13 @@ impl<'a> Gen<'a> {
             }
             shorthands.push(json!({"name": name, "var": {"name": v}, "attrs": attrs}));
             self.shorthands.push(name);
+            if self.rng.chance(1, 2) {
+                // a shorthand whose expansion uses another shorthand
+                shorthands.push(json!({"name": "shh", "var": {"name": "shw"}, "attrs": [
+                    {"name": "sh", "value": {"k": "var", "name": "shw"}},
+                    {"name": "shh1", "value": {"k": "call", "fn": "format", "args": [{"k": "str", "v": "[{}]"}, {"k": "var", "name": "shw"}]}}]}));
+                self.shorthands.push("shh".to_string());
+            }
         }
         self.scoped.clear();
         let nst = self.rng.range(1, self.cfg.max_stanzas);
